@@ -161,7 +161,19 @@ def step (st : St) (l : Line) : St × List Msg :=
     let mutOverlap := hist.any fun a => hist.any fun b =>
       !(a.thread == b.thread && a.idx == b.idx) && isMutator a.op && isMutator b.op && keyOfOp a.op == keyOfOp b.op && overlap a b
     let known := if mutOverlap then " [known:D17 overlapping-mutators-of-one-key]" else ""
-    (st, (if head = "ok" then [] else [Msg.prop s!"flush after the schedule failed: {l.res}"]) ++
+    -- C13 accounting after quiescence (implementation's own views): every non-deleted primary record that no index entry names
+    -- is on the freelist exactly once; nothing current is on it; nothing is on it twice
+    let lst := fun (k : String) => ((ra.get k).splitOn ",").filter (· ≠ "")
+    let acctMsgs := if !l.args.has "acct" then [] else
+      let cur := lst "cur"
+      let fl := lst "fl"
+      let live := lst "live"
+      let orphans := live.filter fun x => !cur.contains x
+      (orphans.filter (fun x => !fl.contains x)).map (fun x => Msg.prop s!"location {x} is no longer current, still marked in use, and not on the freelist (lost freelist entry){known}") ++
+      (fl.filter (fun x => cur.contains x)).map (fun x => Msg.prop s!"location {x} is still current and on the freelist{known}") ++
+      (if fl.eraseDups.length = fl.length then [] else [Msg.prop s!"a location is on the freelist twice: {fl.filter (fun x => (fl.filter (· = x)).length > 1) |>.eraseDups}{known}"]) ++
+      [Msg.flag "handover-accounting"] ++ (if fl.isEmpty then [] else [Msg.flag "freelist-nonempty"])
+    (st, acctMsgs ++ (if head = "ok" then [] else [Msg.prop s!"flush after the schedule failed: {l.res}"]) ++
          (if okFinal then [] else [Msg.prop s!"contents after all activity stopped [{ra.get "reads"}] equal no linearization of the calls{known}"]))
   | _ => (st, [.corr s!"unknown op {l.op}"])
 
